@@ -27,6 +27,9 @@ type decoder struct {
 	Cheap bool     // raw string parser: gets the length-3 enumeration in the thorough tier
 	Valid [][]byte // valid inputs whose single mutations are enumerated too
 	Edge  [][]byte // further hand-picked inputs, fed as they are
+	// JSON-decoding targets additionally get every short sequence of JSON tokens as a whole
+	// input, raw and inside each wrapper ("%s" is replaced by the token sequence)
+	JSONWraps []string
 }
 
 var encodings = []string{transfertypes.EncodingJSON, transfertypes.EncodingProtobuf, transfertypes.EncodingABI}
